@@ -204,6 +204,14 @@ def _guard_normal_form(stmts):
                 s.body = s.body + _guard_normal_form(copy.deepcopy(rest))
                 out.append(s)
                 return out
+        if isinstance(s, ast.Try) and not s.finalbody and s.handlers and all(_terminates(h.body) for h in s.handlers) and stmts[i + 1:]:
+            # handlers all leave: what follows the try runs only after its body (and else) completed - it is the try's else clause
+            s.body = _guard_normal_form(s.body)
+            s.orelse = _guard_normal_form(list(s.orelse) + stmts[i + 1:])
+            for h in s.handlers:
+                h.body = _guard_normal_form(h.body)
+            out.append(s)
+            return out
         out.append(s)
     return out
 
@@ -419,6 +427,44 @@ class _Fold(ast.NodeTransformer):
         return node
 
 
+def _ctx_kind(fn):
+    """a NEW helper decorated with (async)contextmanager: exactly one `yield` statement, not inside a loop or a nested function"""
+    names = [(d.attr if isinstance(d, ast.Attribute) else getattr(d, "id", None)) for d in fn.decorator_list]
+    if not any(n in ("asynccontextmanager", "contextmanager") for n in names):
+        return False
+    if any(n not in ("asynccontextmanager", "contextmanager", "staticmethod") for n in names):
+        return False
+    a = fn.args
+    if a.kwarg or a.posonlyargs or a.vararg:
+        return False
+    ys = [n for n in ast.walk(fn) if isinstance(n, (ast.Yield, ast.YieldFrom))]
+    if len(ys) != 1 or isinstance(ys[0], ast.YieldFrom):
+        return False
+    par = _PARENT_OF(fn)
+    st = par.get(ys[0])
+    if not isinstance(st, ast.Expr):
+        return False
+    q = st
+    while q is not fn:
+        q = par.get(q)
+        if q is None or isinstance(q, (ast.For, ast.AsyncFor, ast.While, ast.Lambda)) or (isinstance(q, FuncT) and q is not fn):
+            return False
+    if any(isinstance(n, (ast.Return, ast.Global, ast.Nonlocal)) for n in ast.walk(fn)):
+        return False
+    return True
+
+
+def _decompose_decorator(expr, param):
+    """`A(x)(B(f))` -> [A(x), B] (outermost first); None if expr is not a pure composition applied to `param`"""
+    if isinstance(expr, ast.Name) and expr.id == param:
+        return []
+    if isinstance(expr, ast.Call) and len(expr.args) == 1 and not expr.keywords:
+        inner = _decompose_decorator(expr.args[0], param)
+        if inner is not None and not any(isinstance(n, ast.Name) and n.id == param for n in ast.walk(expr.func)):
+            return [expr.func] + inner
+    return None
+
+
 def inline_new_helpers(trees):
     """in place over {module: tree}; returns the list of helper qualnames that were inlined"""
     inlined = []
@@ -427,181 +473,339 @@ def inline_new_helpers(trees):
         for n in ast.walk(tree):
             if isinstance(n, FuncT):
                 all_names[n.name] = all_names.get(n.name, 0) + 1
+    qn_all, parent, cands, ctx_cands, deco_cands = {}, {}, {}, {}, {}
+    mod_of = {}
     for mod, tree in trees.items():
         qn = _qualnames(tree, mod)
-        parent = {}
+        qn_all[mod] = qn
         for node in ast.walk(tree):
             for ch in ast.iter_child_nodes(node):
                 parent[ch] = node
-        cands = {}
         for fn, q in qn.items():
+            mod_of[fn] = mod
             if f"{mod}:{q}" in KNOWN:
                 continue
             if q.split(".")[-1].startswith("__") and q.split(".")[-1].endswith("__"):
                 continue
-            kind = _classify(fn)
-            if kind is None:
-                continue
             owner = parent.get(fn)
             if isinstance(owner, ast.ClassDef):
                 decos = {d.id for d in fn.decorator_list if isinstance(d, ast.Name)}
-                how = "static" if "staticmethod" in decos else "class" if "classmethod" in decos else "instance"
-                cands[fn] = (kind, how, owner.name, q)
+                how, cls = ("static" if "staticmethod" in decos else "class" if "classmethod" in decos else "instance"), owner.name
             elif isinstance(owner, ast.Module):
-                cands[fn] = (kind, "function", None, q)
+                how, cls = "function", None
             elif isinstance(owner, FuncT):
-                cands[fn] = (kind, "nested", None, q)
-        if not cands:
-            continue
-        by_name = {}
-        for fn, info in cands.items():
+                how, cls = "nested", None
+            else:
+                continue
+            if _ctx_kind(fn):
+                ctx_cands[fn] = ("ctx", how, cls, q)
+                continue
+            kind = _classify(fn)
+            if kind is None:
+                continue
+            cands[fn] = (kind, how, cls, q)
+            # a decorator that is a pure composition of other decorators
+            params = [a.arg for a in fn.args.args]
+            if kind == "expr" and how in ("function", "nested", "static") and len(params) == 1:
+                dec = _decompose_decorator(_helper_body(fn)[0].value, params[0])
+                if dec:
+                    deco_cands[fn] = dec
+    if not cands and not ctx_cands:
+        return []
+    by_name = {}
+    for table in (cands, ctx_cands):
+        for fn, info in table.items():
             by_name.setdefault(fn.name, []).append((fn, info))
-        counter = [0]
+    counter = [0]
 
-        def match(call, caller):
-            f = call.func
-            if isinstance(f, ast.Attribute) and _pure_ref(f.value) and not isinstance(f.value, ast.Constant) and f.attr in by_name:
-                for fn, (kind, how, cls, q) in by_name[f.attr]:
-                    if how not in ("instance", "static", "class") or fn is caller:
+    def match(call, caller, want_ctx=False):
+        f = call.func
+        if isinstance(f, ast.Attribute) and _pure_ref(f.value) and not isinstance(f.value, ast.Constant) and f.attr in by_name:
+            for fn, (kind, how, cls, q) in by_name[f.attr]:
+                if how not in ("instance", "static", "class") or fn is caller or (kind == "ctx") != want_ctx:
+                    continue
+                recv = f.value.id if isinstance(f.value, ast.Name) else None
+                same_class = recv in ("self", "cls") and _enclosing_class_name(parent, caller) == cls
+                if same_class or recv == cls or (all_names.get(f.attr, 0) == 1 and how == "instance"):
+                    # instance helper called through the class name needs an explicit self: skip that form
+                    if how == "instance" and recv == cls:
                         continue
-                    recv = f.value.id if isinstance(f.value, ast.Name) else None
-                    if recv in ("self", "cls", cls) or (all_names.get(f.attr, 0) == 1 and how == "instance"):
-                        # instance helper called through the class name needs an explicit self: skip that form
-                        if how == "instance" and recv == cls:
-                            continue
-                        return fn, kind, ("instance" if how == "instance" else None if how == "static" else "class")
-            if isinstance(f, ast.Name) and f.id in by_name:
-                for fn, (kind, how, cls, q) in by_name[f.id]:
-                    if how in ("function", "nested") and fn is not caller:
-                        return fn, kind, None
-            return None
+                    return fn, kind, ("instance" if how == "instance" else None if how == "static" else "class")
+        if isinstance(f, ast.Name) and f.id in by_name:
+            for fn, (kind, how, cls, q) in by_name[f.id]:
+                if how in ("function", "nested") and fn is not caller and (kind == "ctx") == want_ctx:
+                    if how == "function" and mod_of.get(fn) != mod_of.get(caller) and all_names.get(f.id, 0) != 1:
+                        continue
+                    return fn, kind, None
+        return None
 
-        def is_async(fn):
-            return isinstance(fn, ast.AsyncFunctionDef)
+    def is_async(fn):
+        return isinstance(fn, ast.AsyncFunctionDef)
 
-        class ExprInliner(ast.NodeTransformer):
-            def __init__(self, caller):
-                self.caller = caller
-                self.names = _names_bound(caller)
+    def info_of(fn):
+        return cands.get(fn) or ctx_cands.get(fn)
 
-            def visit_FunctionDef(self, node):
-                return node if node is not self.caller and node in cands else self.generic_visit(node)
-            visit_AsyncFunctionDef = visit_FunctionDef
+    class ExprInliner(ast.NodeTransformer):
+        def __init__(self, caller):
+            self.caller = caller
+            self.names = _names_bound(caller)
 
-            def _try(self, call, awaited):
-                m = match(call, self.caller)
-                if m is None:
-                    return None
-                fn, kind, how = m
-                if kind != "expr" or is_async(fn) != awaited:
-                    return None
-                counter[0] += 1
-                b = _bind(fn, call, kind, how, self.names, counter[0])
-                if b is None or b[0]:
-                    return None
-                expr = _helper_body(fn)[0].value
-                expr = _SpliceStar().visit(_Fold().visit(_Renamer(b[1]).visit(expr)))
-                inlined.append(cands[fn][3])
-                return ast.copy_location(expr, call)
+        def visit_FunctionDef(self, node):
+            return node if node is not self.caller and (node in cands or node in ctx_cands) else self.generic_visit(node)
+        visit_AsyncFunctionDef = visit_FunctionDef
 
-            def visit_Await(self, node):
-                if isinstance(node.value, ast.Call):
-                    r = self._try(node.value, True)
-                    if r is not None:
-                        return self.generic_visit(r) if not isinstance(r, ast.Name) else r
-                return self.generic_visit(node)
+        def _try(self, call, awaited):
+            m = match(call, self.caller)
+            if m is None:
+                return None
+            fn, kind, how = m
+            if kind != "expr" or is_async(fn) != awaited:
+                return None
+            counter[0] += 1
+            b = _bind(fn, call, kind, how, self.names, counter[0])
+            if b is None or b[0]:
+                return None
+            expr = _helper_body(fn)[0].value
+            expr = _SpliceStar().visit(_Fold().visit(_Renamer(b[1]).visit(expr)))
+            inlined.append(info_of(fn)[3])
+            return ast.copy_location(expr, call)
 
-            def visit_Call(self, node):
-                r = self._try(node, False)
+        def visit_Await(self, node):
+            if isinstance(node.value, ast.Call):
+                r = self._try(node.value, True)
                 if r is not None:
                     return self.generic_visit(r) if not isinstance(r, ast.Name) else r
-                return self.generic_visit(node)
+            return self.generic_visit(node)
 
-        def splice_blocks(caller):
-            changed = False
-            names = _names_bound(caller)
-            for node in list(_own_scope(caller)):
-                for fld in ("body", "orelse", "finalbody"):
-                    blk = getattr(node, fld, None)
-                    if not isinstance(blk, list) or not blk or not isinstance(blk[0], ast.stmt):
+        def visit_Call(self, node):
+            r = self._try(node, False)
+            if r is not None:
+                return self.generic_visit(r) if not isinstance(r, ast.Name) else r
+            return self.generic_visit(node)
+
+    def hoist(s, caller, names):
+        """`f(a, h(x))` / `await f(h(x))` with h a multi-statement helper and everything evaluated before it a pure reference:
+        -> `tmp = h(x)` + the statement using tmp. Returns the new leading statement or None."""
+        holder, fld = None, None
+        if isinstance(s, (ast.Expr, ast.Return)) or (isinstance(s, (ast.Assign, ast.AugAssign))):
+            val = s.value
+        else:
+            return None
+        if isinstance(val, ast.Await):
+            val = val.value
+        if not isinstance(val, ast.Call) or not (_pure_ref(val.func) or (isinstance(val.func, ast.Attribute) and _pure_ref(val.func.value))):
+            return None
+        for k, a in enumerate(val.args):
+            inner = a.value if isinstance(a, ast.Await) else a
+            if isinstance(a, ast.Starred):
+                return None
+            if isinstance(inner, ast.Call):
+                m = match(inner, caller)
+                if m is not None and m[1] == "tail" and is_async(m[0]) == isinstance(a, ast.Await):
+                    if all(_pure_ref(x) for x in val.args[:k]):
+                        counter[0] += 1
+                        tmp = f"{m[0].name.strip('_')}__value{counter[0]}"
+                        val.args[k] = ast.copy_location(ast.Name(id=tmp, ctx=ast.Load()), a)
+                        return ast.copy_location(ast.Assign(targets=[ast.Name(id=tmp, ctx=ast.Store())], value=a, lineno=s.lineno), s)
+                return None
+            if not _pure_ref(a):
+                return None
+        return None
+
+    def splice_with(s, caller, names):
+        """`async with self._h(a) as t, other: BODY` with _h a NEW (async)contextmanager helper -> the helper's statements with its `yield v`
+        replaced by `t = v` + (`async with other: BODY` | BODY). Returns the replacement statements or None."""
+        for k, it in enumerate(s.items):
+            call = it.context_expr
+            alias_def = None
+            if isinstance(call, ast.Name):
+                # `cm = self._h(...)` ... `async with cm as x:` - the context manager object bound to a local used only here
+                defs = [n for n in _own_scope(caller) if isinstance(n, ast.Assign) and len(n.targets) == 1 and isinstance(n.targets[0], ast.Name) and n.targets[0].id == call.id]
+                uses = [n for n in _own_scope(caller) if isinstance(n, ast.Name) and n.id == call.id and isinstance(n.ctx, ast.Load)]
+                if len(defs) == 1 and len(uses) == 1 and isinstance(defs[0].value, ast.Call):
+                    alias_def, call = defs[0], defs[0].value
+            if not isinstance(call, ast.Call):
+                continue
+            m = match(call, caller, want_ctx=True)
+            if m is None:
+                continue
+            fn, kind, how = m
+            if is_async(fn) != isinstance(s, ast.AsyncWith):
+                continue
+            counter[0] += 1
+            b = _bind(fn, call, "tail", how, names, counter[0])
+            if b is None:
+                continue
+            prelude, mapping = b
+            body = [_SpliceStar().visit(_Fold().visit(_Renamer(mapping).visit(x))) for x in copy.deepcopy(_body_wo_doc(fn))]
+            inner_body = list(s.body)
+            if s.items[k + 1:]:
+                inner_body = [ast.copy_location(type(s)(items=s.items[k + 1:], body=inner_body), s)]
+            done = [False]
+
+            def put(stmts):
+                out = []
+                for st in stmts:
+                    if isinstance(st, ast.Expr) and isinstance(st.value, ast.Yield):
+                        if it.optional_vars is not None:
+                            v = st.value.value if st.value.value is not None else ast.Constant(None)
+                            tgt = copy.deepcopy(it.optional_vars)
+                            if isinstance(tgt, ast.Tuple) and isinstance(v, ast.Tuple) and len(tgt.elts) == len(v.elts):
+                                for t_, e_ in zip(tgt.elts, v.elts):
+                                    out.append(ast.copy_location(ast.Assign(targets=[t_], value=e_, lineno=s.lineno), s))
+                            else:
+                                out.append(ast.copy_location(ast.Assign(targets=[tgt], value=v, lineno=s.lineno), s))
+                        out.extend(inner_body)
+                        done[0] = True
                         continue
-                    i = 0
-                    while i < len(blk):
-                        s = blk[i]
-                        val, mode, target = None, None, None
-                        if isinstance(s, ast.Expr):
-                            val, mode = s.value, "expr"
-                        elif isinstance(s, ast.Assign) and len(s.targets) == 1:
-                            val, mode, target = s.value, "assign", s.targets[0]
-                        elif isinstance(s, ast.AugAssign):
-                            val, mode, target = s.value, "assign", ("aug", s.target, s.op)
-                        elif isinstance(s, ast.Return) and s.value is not None:
-                            val, mode = s.value, "return"
-                        awaited = isinstance(val, ast.Await)
-                        call = val.value if awaited else val
-                        m = match(call, caller) if isinstance(call, ast.Call) else None
-                        if m is not None:
-                            fn, kind, how = m
-                            if is_async(fn) == awaited:
-                                counter[0] += 1
-                                b = _bind(fn, call, kind, how, names, counter[0])
-                                if b is not None:
-                                    prelude, mapping = b
-                                    body = [_SpliceStar().visit(_Fold().visit(_Renamer(mapping).visit(x))) for x in _helper_body(fn)]
-                                    body = _rewrite_returns(body, mode, target)
-                                    if mode == "assign" and not isinstance(target, tuple) and not _all_paths_assign(body, target):
-                                        body = [ast.copy_location(ast.Assign(targets=[copy.deepcopy(target)], value=ast.Constant(None), lineno=s.lineno), s)] + body
-                                    new = prelude + (body or [ast.copy_location(ast.Pass(), s)])
-                                    for x in new:
-                                        ast.copy_location(x, s) if not hasattr(x, "lineno") else None
-                                    blk[i:i + 1] = new
-                                    names |= {n.id for x in new for n in ast.walk(x) if isinstance(n, ast.Name) and isinstance(n.ctx, ast.Store)}
-                                    inlined.append(cands[fn][3])
-                                    changed = True
-                                    i += len(new)
-                                    continue
-                        i += 1
-                if isinstance(node, ast.Try):
-                    for h in node.handlers:
-                        pass
-            return changed
+                    for fld in ("body", "orelse", "finalbody"):
+                        b_ = getattr(st, fld, None)
+                        if isinstance(b_, list) and b_ and isinstance(b_[0], ast.stmt):
+                            setattr(st, fld, put(b_))
+                    if isinstance(st, ast.Try):
+                        for h in st.handlers:
+                            h.body = put(h.body)
+                    out.append(st)
+                return out
+            new_body = put(body)
+            if not done[0]:
+                continue
+            new = prelude + new_body
+            if k > 0:
+                new = [ast.copy_location(type(s)(items=s.items[:k], body=new), s)]
+            inlined.append(info_of(fn)[3])
+            if alias_def is not None:
+                alias_def.value = ast.copy_location(ast.Constant(None), alias_def.value)   # the binding is no longer used
+            return new
+        return None
 
-        callers = [fn for fn in qn if True]
-        for _round in range(3):
-            any_change = False
-            for caller in callers:
-                before = len(inlined)
-                ExprInliner(caller).visit(caller)
-                if splice_blocks(caller):
-                    any_change = True
-                if len(inlined) != before:
-                    any_change = True
-            if not any_change:
-                break
-        # remove helpers without remaining references
-        for fn, (kind, how, cls, q) in list(cands.items()):
+    def splice_blocks(caller):
+        changed = False
+        names = _names_bound(caller)
+        for node in list(_own_scope(caller)):
+            blocks = [getattr(node, fld, None) for fld in ("body", "orelse", "finalbody")]
+            if isinstance(node, ast.Try):
+                blocks += [h.body for h in node.handlers]
+            for blk in blocks:
+                if not isinstance(blk, list) or not blk or not isinstance(blk[0], ast.stmt):
+                    continue
+                i = 0
+                while i < len(blk):
+                    s = blk[i]
+                    if isinstance(s, (ast.With, ast.AsyncWith)) and ctx_cands:
+                        new = splice_with(s, caller, names)
+                        if new is not None:
+                            blk[i:i + 1] = new
+                            names |= {n.id for x in new for n in ast.walk(x) if isinstance(n, ast.Name) and isinstance(n.ctx, ast.Store)}
+                            changed = True
+                            return True   # block structure changed: rescan this caller
+                    val, mode, target = None, None, None
+                    if isinstance(s, ast.Expr):
+                        val, mode = s.value, "expr"
+                    elif isinstance(s, ast.Assign) and len(s.targets) == 1:
+                        val, mode, target = s.value, "assign", s.targets[0]
+                    elif isinstance(s, ast.AugAssign):
+                        val, mode, target = s.value, "assign", ("aug", s.target, s.op)
+                    elif isinstance(s, ast.Return) and s.value is not None:
+                        val, mode = s.value, "return"
+                    awaited = isinstance(val, ast.Await)
+                    call = val.value if awaited else val
+                    m = match(call, caller) if isinstance(call, ast.Call) else None
+                    if m is None and val is not None:
+                        lead = hoist(s, caller, names)
+                        if lead is not None:
+                            blk.insert(i, lead)
+                            names.add(lead.targets[0].id)
+                            changed = True
+                            continue   # the new leading statement is processed next
+                    if m is not None:
+                        fn, kind, how = m
+                        if is_async(fn) == awaited:
+                            counter[0] += 1
+                            b = _bind(fn, call, kind, how, names, counter[0])
+                            if b is not None:
+                                prelude, mapping = b
+                                body = [_SpliceStar().visit(_Fold().visit(_Renamer(mapping).visit(x))) for x in _helper_body(fn)]
+                                body = _rewrite_returns(body, mode, target)
+                                if mode == "assign" and not isinstance(target, tuple) and not _all_paths_assign(body, target):
+                                    body = [ast.copy_location(ast.Assign(targets=[copy.deepcopy(target)], value=ast.Constant(None), lineno=s.lineno), s)] + body
+                                new = prelude + (body or [ast.copy_location(ast.Pass(), s)])
+                                blk[i:i + 1] = new
+                                names |= {n.id for x in new for n in ast.walk(x) if isinstance(n, ast.Name) and isinstance(n.ctx, ast.Store)}
+                                inlined.append(info_of(fn)[3])
+                                changed = True
+                                i += len(new)
+                                continue
+                    i += 1
+        return changed
+
+    callers = [fn for qn in qn_all.values() for fn in qn]
+    for _round in range(4):
+        any_change = False
+        for caller in callers:
+            before = len(inlined)
+            ExprInliner(caller).visit(caller)
+            for _k in range(6):
+                if not splice_blocks(caller):
+                    break
+                any_change = True
+            if len(inlined) != before:
+                any_change = True
+        if not any_change:
+            break
+    # decorators that are pure compositions of other decorators: expanded at their use sites
+    for fn, dec in deco_cands.items():
+        for tree in trees.values():
+            for g in ast.walk(tree):
+                if isinstance(g, FuncT) and g is not fn:
+                    new_list, hit = [], False
+                    for d in g.decorator_list:
+                        if (isinstance(d, ast.Name) and d.id == fn.name) or (isinstance(d, ast.Attribute) and d.attr == fn.name and isinstance(d.value, ast.Name) and d.value.id in ("self", "cls")):
+                            new_list += [copy.deepcopy(x) for x in dec]
+                            hit = True
+                        else:
+                            new_list.append(d)
+                    if hit:
+                        g.decorator_list = new_list
+                        inlined.append(cands[fn][3])
+    # remove helpers without remaining references
+    for table in (cands, ctx_cands):
+        for fn, (kind, how, cls, q) in list(table.items()):
             if q not in inlined:
                 continue
             refs = 0
-            for n in ast.walk(tree):
-                if isinstance(n, ast.Attribute) and n.attr == fn.name:
-                    refs += 1
-                elif isinstance(n, ast.Name) and n.id == fn.name and isinstance(n.ctx, ast.Load):
-                    refs += 1
+            for tree in trees.values():
+                for n in ast.walk(tree):
+                    if isinstance(n, ast.Attribute) and n.attr == fn.name:
+                        refs += 1
+                    elif isinstance(n, ast.Name) and n.id == fn.name and isinstance(n.ctx, ast.Load):
+                        refs += 1
             if refs == 0:
                 owner = parent.get(fn)
                 if owner is not None and fn in getattr(owner, "body", []):
                     owner.body.remove(fn)
                     if not owner.body:
                         owner.body.append(ast.Pass())
+    for tree in trees.values():
         ast.fix_missing_locations(tree)
     return sorted(set(inlined))
+
+
+def _enclosing_class_name(parent, fn):
+    q = parent.get(fn)
+    while q is not None and not isinstance(q, ast.ClassDef):
+        q = parent.get(q)
+    return q.name if q is not None else None
 
 
 def _all_paths_assign(stmts, target):
     if not stmts:
         return False
     last = stmts[-1]
+    if isinstance(target, ast.Tuple) and len(stmts) >= len(target.elts):
+        tail = stmts[-len(target.elts):]
+        if all(isinstance(a, ast.Assign) and ast.dump(a.targets[0]) == ast.dump(t) for a, t in zip(tail, target.elts)):
+            return True   # `a, b = x, y` was split into `a = x; b = y`
     if isinstance(last, ast.Assign) and ast.dump(last.targets[0]) == ast.dump(target):
         return True
     if isinstance(last, ast.If):
@@ -620,10 +824,11 @@ def localise_single_use_methods(trees):
     -> list of moved qualnames"""
     moved = []
     for mod, tree in trees.items():
-        for cls in [n for n in ast.walk(tree) if isinstance(n, ast.ClassDef)]:
+        qn = _qualnames(tree, mod)
+        for cls in [n for n in tree.body if isinstance(n, ast.ClassDef)]:   # top-level classes only
             methods = [n for n in cls.body if isinstance(n, FuncT)]
             for m in list(methods):
-                q = f"{mod}:{cls.name}.{m.name}"
+                q = f"{mod}:{qn.get(m, cls.name + '.' + m.name)}"
                 if q in KNOWN or (m.name.startswith("__") and m.name.endswith("__")):
                     continue
                 decos = [d.id for d in m.decorator_list if isinstance(d, ast.Name)]
@@ -694,13 +899,15 @@ def localise_single_use_methods(trees):
     return moved
 
 
-def _literal(v):
+def _literal(v, top=True):
+    """an IMMUTABLE literal: propagating a shared list/dict/set to its use sites would hide that it is one shared object"""
     if isinstance(v, ast.Constant):
         return True
-    if isinstance(v, (ast.Tuple, ast.List, ast.Set)):
-        return all(_literal(x) for x in v.elts)
-    if isinstance(v, ast.Call) and isinstance(v.func, ast.Name) and v.func.id in ("frozenset", "set", "tuple") and len(v.args) == 1 and not v.keywords:
-        return _literal(v.args[0])
+    if isinstance(v, ast.Tuple):
+        return all(_literal(x, False) for x in v.elts)
+    if isinstance(v, ast.Call) and isinstance(v.func, ast.Name) and v.func.id in ("frozenset", "tuple") and len(v.args) == 1 and not v.keywords \
+            and isinstance(v.args[0], (ast.Tuple, ast.List, ast.Set)):
+        return all(_literal(x, False) for x in v.args[0].elts)
     return False
 
 
@@ -729,7 +936,7 @@ def propagate_new_constants(trees):
             T().visit(tree)
             done.append(f"{mod}:{name}")
         # class level
-        for cls in [c for c in ast.walk(tree) if isinstance(c, ast.ClassDef)]:
+        for cls in [c for c in tree.body if isinstance(c, ast.ClassDef)]:   # top-level classes only (the inventory lists those)
             for st in list(cls.body):
                 if not (isinstance(st, ast.Assign) and len(st.targets) == 1 and isinstance(st.targets[0], ast.Name) and _literal(st.value)):
                     continue
